@@ -32,6 +32,36 @@ fn desc_of(setup: OracleSetup, dev: Dev, slot: u64, now: i64) -> String {
     format!("{:?} {:?} (clock slot {} unix {})", setup, dev, slot, now)
 }
 
+/// a Kamino reserve whose total liquidity is exactly `l` (I80F48 bits): available + borrowed − the three fee buckets, each
+/// stored at 2^-60 with its low 12 bits clear so that no conversion truncates. Half of the time nothing is lent and no fees are
+/// due (total = available + a borrowed fraction); otherwise the fee buckets are filled — one time in two beyond what is
+/// borrowed (borrowers have repaid, `redeem_fees` has not run): the total then is BELOW the available amount.
+fn kamino_split(rng: &mut Rng, l: i128, r: &mut kamino_mocks::state::MinimalReserve) {
+    let frac_mask = (1i128 << 48) - 1;
+    if rng.chance(1, 2) || l < 0 {
+        r.available_amount = (l >> 48) as u64;
+        r.borrowed_amount_sf = (((l & frac_mask) as u128) << 12).to_le_bytes();
+        return;
+    }
+    let f = |rng: &mut Rng| -> i128 { match rng.below(4) { 0 => 0, 1 => rng.below(1 << 20) as i128, 2 => (rng.below(1_000_000) as i128) << 48, _ => ((rng.below(1_000_000) as i128) << 48) + rng.below(1 << 48) as i128 } };
+    let (f1, f2, f3) = (f(rng), f(rng), f(rng));
+    let fees = f1 + f2 + f3;
+    let top = (l + fees) >> 48; // the most that can be booked as borrowed (whole tokens)
+    let bi: i128 = if rng.chance(1, 2) { 0 } else { (rng.below((top.min(1 << 40) + 1) as u64)) as i128 };
+    let b = (bi << 48) + ((l + fees) & frac_mask);
+    let avail = (l + fees - b) >> 48;
+    if avail < 0 || avail > u64::MAX as i128 {
+        r.available_amount = (l >> 48) as u64;
+        r.borrowed_amount_sf = (((l & frac_mask) as u128) << 12).to_le_bytes();
+        return;
+    }
+    r.available_amount = avail as u64;
+    r.borrowed_amount_sf = ((b as u128) << 12).to_le_bytes();
+    r.accumulated_protocol_fees_sf = ((f1 as u128) << 12).to_le_bytes();
+    r.accumulated_referrer_fees_sf = ((f2 as u128) << 12).to_le_bytes();
+    r.pending_referrer_fees_sf = ((f3 as u128) << 12).to_le_bytes();
+}
+
 pub fn run(rng: &mut Rng, n: usize, rep: &mut Report) {
     crate::stubs::install();
     run_staked(rng, (n / 4).max(8), rep);
@@ -447,8 +477,7 @@ pub fn venue_value_lines(rng: &mut Rng, n: usize, out: &mut Vec<String>) {
                 if l < 0 || (l >> 48) > u64::MAX as i128 { continue; }
                 let mut r: kamino_mocks::state::MinimalReserve = bytemuck::Zeroable::zeroed();
                 r.slot = slot;
-                r.available_amount = (l >> 48) as u64;
-                r.borrowed_amount_sf = (((l & ((1i128 << 48) - 1)) as u128) << 12).to_le_bytes();
+                kamino_split(rng, l, &mut r);
                 r.mint_total_supply = c;
                 r.mint_decimals = d as u64;
                 vdata.extend_from_slice(<kamino_mocks::state::MinimalReserve as Discriminator>::DISCRIMINATOR);
@@ -542,8 +571,7 @@ pub fn venue_v4_lines(rng: &mut Rng, n: usize, out: &mut Vec<String>) {
                 if l < 0 || (l >> 48) > u64::MAX as i128 { continue; }
                 let mut r: kamino_mocks::state::MinimalReserve = bytemuck::Zeroable::zeroed();
                 r.slot = slot;
-                r.available_amount = (l >> 48) as u64;
-                r.borrowed_amount_sf = (((l & ((1i128 << 48) - 1)) as u128) << 12).to_le_bytes();
+                kamino_split(rng, l, &mut r);
                 r.mint_total_supply = c;
                 r.mint_decimals = d as u64;
                 vdata.extend_from_slice(<kamino_mocks::state::MinimalReserve as Discriminator>::DISCRIMINATOR);
@@ -651,8 +679,9 @@ pub fn kamino_pyth_adjusted(l: i128, c: u64, d: u8, p: i64) -> Option<i64> {
     bank.config.oracle_keys[1] = vkey;
     let mut r: kamino_mocks::state::MinimalReserve = bytemuck::Zeroable::zeroed();
     r.slot = slot;
-    r.available_amount = (l >> 48) as u64;
-    r.borrowed_amount_sf = (((l & ((1i128 << 48) - 1)) as u128) << 12).to_le_bytes();
+    // (how the total is split over available / borrowed / fee buckets is derived from the arguments: the function stays a function)
+    let mut split_rng = Rng((l as u64) ^ c.rotate_left(17) ^ ((d as u64) << 56) ^ (p as u64).rotate_left(33) ^ 0x9E37_79B9_7F4A_7C15);
+    kamino_split(&mut split_rng, l, &mut r);
     r.mint_total_supply = c;
     r.mint_decimals = d as u64;
     let mut vdata: Vec<u8> = Vec::new();
